@@ -5,7 +5,7 @@
    (existence of the LU factorisation for collocation / N^T N matrices is NOT proved: total positivity). *)
 From Coq Require Import List QArith Reals Qreals Lia Lra Arith Bool.
 From NV Require Import Scalar.Ops Model.Common Model.Basis Model.Knots Model.Eval Model.LinAlg Model.Fit
-  Proofs.Boehm Proofs.BasisR Proofs.KnotsR Proofs.EvalR Proofs.LinAlgSums Proofs.LinAlgR Proofs.LinAlgSolve Proofs.FitR
+  Proofs.Boehm Proofs.BasisR Proofs.KnotsR Proofs.EvalR Proofs.LinAlgSums Proofs.LinAlgR Proofs.LinAlgSolve Proofs.FitR Proofs.FitSurfR
   Transfer.BasisT Transfer.LinAlgT Transfer.FitT.
 Import ListNotations.
 
@@ -67,14 +67,29 @@ Theorem C11_interpolate_curve_conditions : forall (pts : list (list R)) (p dim :
 Proof. exact interpolate_curve_correct. Qed.
 Print Assumptions C11_interpolate_curve_conditions.
 
-(* the surface statement: NOT proved as a whole (both passes are instances of C11_interpolation_solve_conditions;
-   their composition into S(u_k, v_l) = Q_kl is tied by the correspondence check and the exact oracle) *)
-Definition C11_interpolate_surface_conditions_full : Prop :=
-  forall (pts : list (list R)) (su sv pu pv dim : nat) (cdsU cdsV : list (list R)) P kvu kvv uk vl,
+(* [G given pivots] interpolate_surface (A9.4): the two passes compose; the evaluator model's surface point at (u_k, v_l)
+   is data point (k, l), for different sizes / degrees per direction.  The span hypotheses say p <= span < n, which
+   find_span_linear guarantees for every parameter >= kv[p] (C03_find_span_linear_spec); they are discharged for curves in
+   C11_interpolate_curve_conditions and kept as hypotheses here (the averaged surface parameters are not analysed). *)
+Theorem C11_interpolate_surface_conditions :
+  forall (pts : list (list R)) (su sv pu pv dim : nat) (cdsU cdsV : list (list R)) (uk vl : list R),
+  (0 < su)%nat -> (0 < sv)%nat -> rect (su * sv) dim pts ->
   compute_params_surface Rops su sv cdsU cdsV = Ok (uk, vl) ->
-  interpolate_surface Rops pts su sv pu pv cdsU cdsV = Ok (P, kvu, kvv) ->
-  forall u v d, (u < su)%nat -> (v < sv)%nat -> (d < dim)%nat ->
-    nth d (surface_point Rops dim pu pv kvu kvv su sv P (nth u uk 0%R) (nth v vl 0%R)) 0%R = get2 Rops pts (v + sv * u) d.
+  let kvu := compute_knot_vector Rops pu su uk in let kvv := compute_knot_vector Rops pv sv vl in
+  (forall i, (i < su)%nat -> (pu <= find_span_linear Rops pu kvu su (nth i uk 0%R) < su)%nat) ->
+  (forall i, (i < sv)%nat -> (pv <= find_span_linear Rops pv kvv sv (nth i vl 0%R) < sv)%nat) ->
+  (forall i, (i < su)%nat -> get2 Rops (snd (doolittle Rops (build_coeff_matrix Rops pu kvu uk su))) i i <> 0%R) ->
+  (forall i, (i < sv)%nat -> get2 Rops (snd (doolittle Rops (build_coeff_matrix Rops pv kvv vl sv))) i i <> 0%R) ->
+  exists P, interpolate_surface Rops pts su sv pu pv cdsU cdsV = Ok (P, kvu, kvv) /\ length P = (su * sv)%nat /\
+    forall u v d, (u < su)%nat -> (v < sv)%nat -> (d < dim)%nat ->
+      nth d (surface_point Rops dim pu pv kvu kvv su sv P (nth u uk 0%R) (nth v vl 0%R)) 0%R = get2 Rops pts (v + sv * u) d.
+Proof.
+  intros pts su sv pu pv dim cdsU cdsV uk vl Hsu Hsv Hpts Hpar kvu kvv HspU HspV HpU HpV.
+  destruct (interp_surface_core_conditions pu pv su sv dim kvu kvv uk vl pts Hsu Hsv Hpts HspU HspV HpU HpV) as (P & EP & LP & HP).
+  exists P. split; [|split; [exact LP|exact HP]].
+  unfold interpolate_surface. rewrite Hpar. cbn [res_bind fst snd]. fold kvu. fold kvv. rewrite EP. reflexivity.
+Qed.
+Print Assumptions C11_interpolate_surface_conditions.
 
 (* [G] pure algebra: a solution of the normal equations minimises the summed squared residual *)
 Theorem C11_normal_equations_minimise : forall (Nf : nat -> nat -> R) (Rf P P' : nat -> R) (m n : nat),
@@ -152,7 +167,7 @@ Proof.
     rewrite knot_vector_transfer, coeff_matrix_transfer. apply pivots_transfer.
     intros i Hi. assert (C : (i = 0 \/ i = 1 \/ i = 2 \/ i = 3 \/ i = 4)%nat) by lia.
     destruct C as [-> | [-> | [-> | [-> | ->]]]]; vm_compute; discriminate.
-  - eexists. eexists. eexists. split; [vm_compute; reflexivity|]. split; vm_compute; reflexivity.
+  - eexists. eexists. eexists. split; [vm_compute; reflexivity|]. split; [vm_compute; reflexivity|]. vm_compute. reflexivity.
 Qed.
 (* hypotheses of C11_approximate_curve_least_squares hold for 5 data points, degree 2, 4 control points *)
 Example C11_approximation_hypotheses_satisfiable :
@@ -177,4 +192,44 @@ Proof.
     intros i Hi. assert (C : (i = 0 \/ i = 1)%nat) by lia.
     destruct C as [-> | ->]; vm_compute; discriminate.
   - eexists. eexists. split; [vm_compute; reflexivity|]. repeat split.
+Qed.
+
+(* a 3 x 4 grid (translation surface of two polylines with integer chords), degrees (2, 2): all hypotheses of
+   C11_interpolate_surface_conditions hold over the reals; the executable instance interpolates the 12 points *)
+Definition exS : list (list Q) :=
+  [[0;0];[4;0];[4;9];[8;12];  [3;4];[7;4];[7;13];[11;16];  [3;8];[7;8];[7;17];[11;20]]%Q.
+Definition exSU : list (list Q) := [[5;4];[5;4];[5;4];[5;4]]%Q.
+Definition exSV : list (list Q) := [[4;9;5];[4;9;5];[4;9;5]]%Q.
+Definition exUk : list Q := [0; 5#9; 1]%Q.
+Definition exVl : list Q := [0; 2#9; 13#18; 1]%Q.
+Example C11_surface_hypotheses_satisfiable :
+  let uk := map Q2R exUk in let vl := map Q2R exVl in
+  let kvu := compute_knot_vector Rops 2 3 uk in let kvv := compute_knot_vector Rops 2 4 vl in
+  rect (3 * 4) 2 (mQ2R exS) /\
+  compute_params_surface Rops 3 4 (mQ2R exSU) (mQ2R exSV) = Ok (uk, vl) /\
+  (forall i, (i < 3)%nat -> (2 <= find_span_linear Rops 2 kvu 3 (nth i uk 0%R) < 3)%nat) /\
+  (forall i, (i < 4)%nat -> (2 <= find_span_linear Rops 2 kvv 4 (nth i vl 0%R) < 4)%nat) /\
+  (forall i, (i < 3)%nat -> get2 Rops (snd (doolittle Rops (build_coeff_matrix Rops 2 kvu uk 3))) i i <> 0%R) /\
+  (forall i, (i < 4)%nat -> get2 Rops (snd (doolittle Rops (build_coeff_matrix Rops 2 kvv vl 4))) i i <> 0%R) /\
+  (exists P kvu' kvv', interpolate_surface Qops exS 3 4 2 2 exSU exSV = Ok (P, kvu', kvv') /\
+     flat_map (fun u => map (fun v => surface_point Qops 2 2 2 kvu' kvv' 3 4 P u v) exVl) exUk = exS).
+Proof.
+  cbv zeta. split.
+  { split; [reflexivity|]. intros row Hin. cbn in Hin. repeat (destruct Hin as [E|Hin]; [subst row; reflexivity|]). contradiction. }
+  split.
+  { rewrite params_surface_transfer.
+    replace (compute_params_surface Qops 3 4 exSU exSV) with (Ok (exUk, exVl)) by (vm_compute; reflexivity). reflexivity. }
+  rewrite !knot_vector_transfer. split.
+  { intros i Hi. rewrite nth_Q2R, span_transfer. assert (C : (i = 0 \/ i = 1 \/ i = 2)%nat) by lia.
+    destruct C as [-> | [-> | ->]]; vm_compute; lia. }
+  split.
+  { intros i Hi. rewrite nth_Q2R, span_transfer. assert (C : (i = 0 \/ i = 1 \/ i = 2 \/ i = 3)%nat) by lia.
+    destruct C as [-> | [-> | [-> | ->]]]; vm_compute; lia. }
+  rewrite !coeff_matrix_transfer. split.
+  { apply pivots_transfer. intros i Hi. assert (C : (i = 0 \/ i = 1 \/ i = 2)%nat) by lia.
+    destruct C as [-> | [-> | ->]]; vm_compute; discriminate. }
+  split.
+  { apply pivots_transfer. intros i Hi. assert (C : (i = 0 \/ i = 1 \/ i = 2 \/ i = 3)%nat) by lia.
+    destruct C as [-> | [-> | [-> | ->]]]; vm_compute; discriminate. }
+  eexists. eexists. eexists. split; [vm_compute; reflexivity|]. vm_compute. reflexivity.
 Qed.
